@@ -122,6 +122,11 @@ RULE = ("forecasts of 1..6 catalogs (0..4 events each, empty catalogs written as
         "/ magnitude / number tests, passes and event counts on 7 sources; both representations of the spatial rates occur in "
         "every history; every returned value (shape, NaN positions, each entry) is compared with the view of the per-bin means "
         "and with the model. "
+        "Round 6, riding along with every history class: half of the worlds overwrite in place every array / list a call hands "
+        "out (event counts, rates data, spatial / magnitude counts, every read) before the history goes on; catalogs handed over "
+        "as list / tuple / generator object / iter(list) / map object; the region given to the constructor or assigned "
+        "afterwards; the constructor called by keywords or with all 17 arguments positionally; verbose positionally / by keyword; "
+        "a region of 1 080 000 space-magnitude bins (> 2^20) with several events of one catalog in one bin (oracle only). "
         "A history is non-trivial when it has >= 2 operations; distinct by (configuration, variant, catalogs, ops)")
 
 # sub-classes on which the UNCHANGED library does not behave as one would wish and for which a decision is pending:
@@ -364,7 +369,7 @@ def build_forecast(case, tmpdir, region=None, cats=None):
     """the forecast under test + the generation table {event_id: (keep, bin, row)}; `region`: a region object shared
     with other forecasts of a session"""
     from csep import load_catalog_forecast
-    from csep.core.forecasts import CatalogForecast
+    from csep.core.forecasts import CatalogForecast as _CF
     region0, origins = make_region(case["nx"], case["ny"])
     region = region if region is not None else region0
     filters = [f"magnitude >= {MAG_CUT}"] if case["mag_filter"] else []
@@ -390,17 +395,36 @@ def build_forecast(case, tmpdir, region=None, cats=None):
     kind, via_other = region_kind(case)
     foreign = foreign_region(case["nx"], case["ny"], kind) if kind else None
     src = case["source"]
+    later = bool(case.get("region_later")) and src in ("list", "list-ncat", "gen-store")
+
+    def CatalogForecast(catalogs=None, loader=None, filename=None, store=True, **k):          # noqa: shadows the class on purpose
+        """the constructor in the call form of the case: keywords, or EVERY argument positionally in the pinned signature order
+        (filename, catalogs, name, filter_spatial, filters, apply_mct, region, expected_rates, start_time, end_time, n_cat, event,
+        loader, catalog_type, catalog_format, store, apply_filters); with region_later the region is assigned after construction"""
+        from csep.core.forecasts import CatalogForecast as CF
+        reg = k.get("region")
+        if later:
+            k = dict(k, region=None)
+        if case.get("ctor_positional"):
+            f = CF(filename, catalogs, k.get("name"), k.get("filter_spatial", False), k.get("filters"), k.get("apply_mct", False),
+                   k.get("region"), None, None, None, k.get("n_cat"), k.get("event"), loader, "ascii", "native", store,
+                   k.get("apply_filters", False))
+        else:
+            f = CF(catalogs=catalogs, loader=loader, filename=filename, store=store, **k)
+        if later:
+            f.region = reg
+        return f
     if src in ("list", "list-ncat"):
         if via_other:
             # the catalogs went through another forecast (other region) before: its get_expected_rates bound them
             cats = make_catalogs(case, origins, None, filters)
-            CatalogForecast(catalogs=cats, region=foreign, name="other").get_expected_rates()
+            _CF(catalogs=cats, region=foreign, name="other").get_expected_rates()
         elif cats is None:
             cats = make_catalogs(case, origins, foreign, filters)
         table["@cats"] = cats
         if src == "list-ncat":
             kw["n_cat"] = case.get("ncat_wrong", len(cats))
-        fore = CatalogForecast(catalogs=cats, **kw)
+        fore = CatalogForecast(catalogs=tuple(cats) if case.get("entry") == "tuple" else cats, **kw)
     elif src in ("loader-store", "loader-nostore", "gen-store"):
         unbound = case.get("cat_region") == "unbound"
 
@@ -410,7 +434,12 @@ def build_forecast(case, tmpdir, region=None, cats=None):
                                    filters):
                 yield c
         if src == "gen-store":
-            fore = CatalogForecast(catalogs=loader(region=region), **kw)
+            stream = loader(region=region)
+            if case.get("entry") == "iter":
+                stream = iter(list(stream))
+            elif case.get("entry") == "map":
+                stream = map(lambda c: c, list(stream))
+            fore = CatalogForecast(catalogs=stream, **kw)
         else:
             fore = CatalogForecast(loader=loader, filename="in-memory simulation", store=(src == "loader-store"), **kw)
     elif src in U3_SOURCES:
@@ -495,6 +524,28 @@ class Hist:
 
     def fail(self, msg):
         self.fails.append(self.label + msg)
+
+    def scribble(self, ret):
+        """ALIASING OF RETURNED OBJECTS: what a call hands out belongs to the caller. Overwrite it in place (sorted, zeroed, a
+        constant) — if the forecast kept a reference to the same memory, the next request / evaluation shows it"""
+        if not self.case.get("scribble"):
+            return
+        try:
+            if isinstance(ret, numpy.ndarray):
+                if ret.ndim == 0:
+                    return
+                flat = ret.reshape(-1)
+                if flat.size and numpy.shares_memory(flat, ret):
+                    flat.sort()
+                    flat[...] = -7
+                else:
+                    ret[...] = -7
+                self.run.count("scribbled:ndarray")
+            elif isinstance(ret, list):
+                ret[:] = [-7] * (len(ret) + 1)
+                self.run.count("scribbled:list")
+        except (ValueError, TypeError):
+            self.run.count("scribble:read-only result")      # a read-only array cannot be corrupted by the caller: fine
 
     def layout(self):
         """([cell index or None for every position of the flattened bounding-box map], shape of the map): the region's own
@@ -597,14 +648,18 @@ class Hist:
                 outs.append("t")
             elif op == "E":
                 with contextlib.redirect_stdout(io.StringIO()):
-                    ec = [int(v) for v in numpy.asarray(fore.get_event_counts(verbose=self.verbose)).ravel()]
+                    ret = fore.get_event_counts(self.verbose) if k % 2 else fore.get_event_counts(verbose=self.verbose)
+                    ec = [int(v) for v in numpy.asarray(ret).ravel()]
+                self.scribble(ret)
                 if ec != self.ref_counts:
                     self.fail(f"op {k}: get_event_counts {ec}, a single pass has {self.ref_counts}")
                 outs.append("n" + (",".join(map(str, ec)) if ec else "-"))
             elif op == "R":
                 with contextlib.redirect_stdout(io.StringIO()):
-                    er = fore.get_expected_rates(verbose=self.verbose)
-                ks = self.check_rates_matrix(er.data, k)
+                    er = fore.get_expected_rates(self.verbose) if k % 2 else fore.get_expected_rates(verbose=self.verbose)
+                dat = er.data
+                ks = self.check_rates_matrix(dat, k)
+                self.scribble(dat)
                 if self.first_rates is None:
                     self.first_rates, self.first_rates_vals = er, numpy.array(er.data, dtype=float).copy()
                 else:
@@ -618,11 +673,13 @@ class Hist:
                 exp = [sum(tot[s * nm:(s + 1) * nm]) for s in range(nb // nm)]
                 ks = self.check_marginal(sc, exp, k, "spatial_counts")
                 outs.append("r" + ",".join(map(str, ks)) + f"/{self.ncat_tok()}")
+                self.scribble(sc)
             elif op == "M":
                 mc = fore.magnitude_counts()
                 exp = [sum(tot[m::nm]) for m in range(nm)]
                 ks = self.check_marginal(mc, exp, k, "magnitude_counts")
                 outs.append("r" + ",".join(map(str, ks)) + f"/{self.ncat_tok()}")
+                self.scribble(mc)
             elif op in READS:
                 form = int((case.get("read_forms") or {}).get(str(k), 0))
                 sp_exp = [sum(tot[s * nm:(s + 1) * nm]) for s in range(nb // nm)]
@@ -664,6 +721,7 @@ class Hist:
                                       f"{'map has no cell there' if e is None else f'per-bin mean is {e}/{n}'}")
                 run.count(f"read:{op}:form{form % 4}")
                 outs.append("v" + (",".join(toks) if toks else "-") + f"/{self.ncat_tok()}")
+                self.scribble(val)
             else:
                 raise ValueError(f"unknown operation {op}")
             if op != "P" and op != "E" and op != "N" and self.first_rates is None and fore.expected_rates is not None:
@@ -1222,6 +1280,17 @@ def gen_world(rng, src, af, sp):
         w["nan_depth"] = True          # every second event has an unreported (NaN) depth
     if rng.random() < 0.1:
         w["zero_time"] = True          # the first event of the forecast happens at epoch 0
+    # round 6 classes that ride along with every kind of history
+    if rng.random() < 0.5:
+        w["scribble"] = True           # ALIASING OF RETURNED OBJECTS: every array / list a call hands out is overwritten in place
+    if src in ("list", "list-ncat") and rng.random() < 0.25:
+        w["entry"] = "tuple"           # ENTRY POINTS: catalogs as a tuple
+    if src == "gen-store":
+        w["entry"] = rng.choice(["generator", "iter", "map"])      # a generator object, iter(list), a map object
+    if src in ("list", "list-ncat", "gen-store") and rng.random() < 0.3:
+        w["region_later"] = True       # constructed WITHOUT region=, the region is assigned afterwards
+    if src in ("list", "list-ncat", "gen-store", "loader-store", "loader-nostore") and rng.random() < 0.3:
+        w["ctor_positional"] = True    # CALL FORMS: CatalogForecast(...) with every argument positionally, in signature order
     return w
 
 
@@ -1345,6 +1414,9 @@ def dispatch(case):
     if case.get("kind") == "ratesx":
         from . import c13_rates
         return c13_rates.do_ratesx
+    if case.get("kind") == "bigregion":
+        from . import c13_rates
+        return c13_rates.do_bigregion
     return {"aborted": do_aborted, "wrong-ncat": do_wrong_ncat, "session": do_session, "big": do_big}.get(
         case.get("kind"), do_history)
 
@@ -1499,6 +1571,10 @@ def run(run, rng, tier):
         for _ in range(16 if quick else 120):
             do_aborted(run, drv, pending, gen_aborted(rng), tmpdir)
         flush(run, drv, pending)
+        # round 6 (owner): a region above 2^20 space-magnitude bins, several events of one catalog in one bin (oracle only)
+        from . import c13_rates
+        for _ in range(3 if quick else 30):
+            c13_rates.do_bigregion(run, drv, pending, c13_rates.gen_bigregion(rng), tmpdir)
         # round 5 (owner): reads of the expected rates in all argument forms, interleaved with the evaluations (c13_runr)
         from . import c13_rates
         for _ in range(260 if quick else 6000):
